@@ -43,7 +43,26 @@ def builder_not_followed(graph):
     return c
 
 
-def opaque_constructs(fn_node):
+def module_tables(mod_tree):
+    """names bound at module level to an empty dict / list (memo tables, registries)"""
+    out = set()
+    for st in mod_tree.body:
+        if isinstance(st, (ast.Assign, ast.AnnAssign)) and st.value is not None:
+            v = st.value
+            empty = (isinstance(v, (ast.Dict, ast.List)) and not (getattr(v, 'keys', None) or getattr(v, 'elts', None))) or \
+                    (isinstance(v, ast.Call) and isinstance(v.func, ast.Name) and v.func.id in ('dict', 'list', 'OrderedDict', 'defaultdict'))
+            if empty:
+                for t in (st.targets if isinstance(st, ast.Assign) else [st.target]):
+                    if isinstance(t, ast.Name):
+                        out.add(t.id)
+    return out
+
+
+MEMO_TABLE_READ = 'value taken out of a module-level table'
+MEMO_HELPER = 'result of a memoising helper introduced later'
+
+
+def opaque_constructs(fn_node, tables=()):
     """Counter of construct kinds (see module docstring) in one function, nested functions included"""
     c = collections.Counter()
     nested = {}
@@ -73,6 +92,12 @@ def opaque_constructs(fn_node):
                 if isinstance(x, ast.Call) and isinstance(x.func, ast.Name) and x.func.id in mutating:
                     c['local function that updates captured arrays, called per element of a comprehension'] += 1
     for n in ast.walk(fn_node):
+        if tables and isinstance(n, ast.Subscript) and isinstance(n.ctx, ast.Load) and isinstance(n.value, ast.Name) and n.value.id in tables:
+            c[MEMO_TABLE_READ] += 1          # what the table holds at that key was computed by an earlier call: not followed as a value
+        elif tables and isinstance(n, ast.Call) and isinstance(n.func, ast.Attribute) and n.func.attr in ('get', 'setdefault', 'pop') and isinstance(n.func.value, ast.Name) \
+                and n.func.value.id in tables:
+            c[MEMO_TABLE_READ] += 1
+    for n in ast.walk(fn_node):
         if isinstance(n, ast.Call):
             if isinstance(n.func, ast.Name) and n.func.id in ('getattr', 'setattr', 'eval', 'exec', 'globals', 'locals', 'vars') and \
                     not (n.func.id == 'getattr' and len(n.args) >= 2 and isinstance(n.args[1], ast.Constant)):
@@ -98,8 +123,8 @@ def outer_functions(mod_tree):
     return out
 
 
-def all_counts(node, graph):
-    c = opaque_constructs(node)
+def all_counts(node, graph, mod_tree=None):
+    c = opaque_constructs(node, module_tables(mod_tree) if mod_tree is not None else ())
     c.update(builder_not_followed(graph))
     return c
 
@@ -118,7 +143,7 @@ def new_opaque_constructs(prog, relpath, line, known_funcs, depth=0, seen=None, 
     return _new_for(prog, mod, q, node, known_funcs, seen, graphs)
 
 
-def _new_for(prog, mod, q, node, known_funcs, seen, graphs=None):
+def _new_for(prog, mod, q, node, known_funcs, seen, graphs=None, depth=0):
     key = f'{mod.name}::{q}'
     if key in seen:
         return {}
@@ -129,7 +154,9 @@ def _new_for(prog, mod, q, node, known_funcs, seen, graphs=None):
             graph = graphs.get(prog.func(key))
         except Exception:
             graph = None
-    cur = all_counts(node, graph)
+    cur = all_counts(node, graph, mod.tree)
+    if key not in known_funcs and any(ast.unparse(d.func if isinstance(d, ast.Call) else d).split('.')[-1] in ('lru_cache', 'cache') for d in node.decorator_list):
+        cur[MEMO_HELPER] += 1
     ref = reference_counts().get(key, {}) if key in known_funcs else {}
     out = {k: v - ref.get(k, 0) for k, v in cur.items() if v - ref.get(k, 0) > 0}
     # helpers introduced later, referred to by name from this function
@@ -140,6 +167,11 @@ def _new_for(prog, mod, q, node, known_funcs, seen, graphs=None):
             continue
         for qq, (mm, nn) in funcs.items():
             if qq.split('.')[-1] == name and f'{mm.name}::{qq}' not in known_funcs and nn is not node:
-                for k, v in _new_for(prog, mm, qq, nn, known_funcs, seen, graphs).items():
+                for k, v in _new_for(prog, mm, qq, nn, known_funcs, seen, graphs, depth).items():
                     out[k] = out.get(k, 0) + v
+            elif qq.split('.')[-1] == name and mm is mod and nn is not node and depth < 1:
+                # a function of the reference tree that this one calls and that NOW takes values out of a memo: what it returns is not followed either
+                for k, v in _new_for(prog, mm, qq, nn, known_funcs, seen, graphs, depth + 1).items():
+                    if k in (MEMO_TABLE_READ, MEMO_HELPER):
+                        out[k] = out.get(k, 0) + v
     return out
